@@ -21,7 +21,7 @@ from tools import common, shroudrun
 LEVEL = "proof"
 MANIFEST = dict(
     category="proof",
-    text="Lean 4 theorems (70, all axioms within propext/Classical.choice/Quot.sound) on a model of the Fortran wrapper path. "
+    text="Lean 4 theorems (73, all axioms within propext/Classical.choice/Quot.sound) on a model of the Fortran wrapper path. "
          "(1) Shape lemmas, for all values, lengths and extents, of the trip of one argument or result through Fortran pre_call, the "
          "bind(C) actuals per buf_arg, the bufferify or CFI C wrapper, the library, C post_call, storage association and Fortran "
          "post_call, for 31 kinds: logical<->bool in/out/inout; scalars by value; pointer/array pass-through and allocatable out arrays; "
@@ -35,6 +35,8 @@ MANIFEST = dict(
          "(2) Table theorems over the regenerated fc_statements (language c and c++ tables): every entry reached for a key of a modelled "
          "kind is exactly the documented op sequence with the same variables in every position; pointer results take the C return value; "
          "the regenerated probe of wrapc.set_fmt_fields gives shape[i] = dimension i and size = product (ctx_size_is_product). "
+         "(2b) Reachability under the generic name: every member of an emitted generic interface is guarded by exactly its own cpp_if "
+         "(generic_member_own_condition); assumed-rank variants are exactly the ranks F_assumed_rank_min..max (assumed_rank_variants). "
          "(3) Assembly for all parameter lists: declaration order, this first, hidden/implied dropped from the API and supplied to C; "
          "implied expressions (size/len/len_trim/type/true/false/arithmetic) evaluate to the caller's own inquiry values and type(a) to the "
          "wrapped function's own declaration; routing through _PTR_F_C_index / _PTR_C_CXX_index chains, default-argument clones are "
@@ -464,7 +466,7 @@ def run(ctx):
         for macros in ((), ("HAVE_PK",)):
             nrun += c01_oracle.check_library(ctx, work, "cppif" + "".join(macros), "qlib", c01_oracle.cppif_spec(), True,
                                              [(0, 0)], workers=1, macros=macros)
-        # the open part of the F_CFI finding, reproduced on every run: a context RESULT with a character argument
+        # a context RESULT with a character argument under F_CFI (was the open finding; fixed in /repo 302a66e): regression
         nrun += c01_oracle.check_library(ctx, work, "cfires", "qlib", [
             c01_oracle.Func("r99", "iptr", [c01_oracle.DimArg("d99"), c01_oracle.StringIn("s99")])], True, [(1, 0)], workers=1, force=True)
         # the same C-subset description as a C library and as a C++ library: identical traces required
